@@ -156,10 +156,13 @@ type JMember struct {
 	Str  string    `json:"str"` // the string itself when short and printable
 	Arr  []JMember `json:"arr"` // array elements (name "")
 	Obj  []JMember `json:"obj"` // object members
+	VB   V         `json:"vb"`  // strings: the base64-decoded bytes as a claim value (absent: not base64)
+	VT   V         `json:"vt"`  // strings: the text as a certification reference
+	VS   V         `json:"vs"`  // strings: the text as a free string
 }
 
 func absJSON(name string, x any) JMember {
-	m := JMember{Name: name, Arr: []JMember{}, Obj: []JMember{}}
+	m := JMember{Name: name, Arr: []JMember{}, Obj: []JMember{}, VB: absent(), VT: absent(), VS: absent()}
 	switch t := x.(type) {
 	case nil:
 		m.T = "null"
@@ -169,6 +172,9 @@ func absJSON(name string, x any) JMember {
 		m.T = "number"
 		if i, err := t.Int64(); err == nil && i >= -2147483648 && i <= 2147483647 {
 			m.V = i
+			if i == 0 && strings.HasPrefix(t.String(), "-") {
+				m.T = "negzero" // the literal -0: zero for a signed type, a syntax error for an unsigned one
+			}
 		} else {
 			m.T = "bignumber"
 		}
@@ -177,9 +183,11 @@ func absJSON(name string, x any) JMember {
 		if len(t) <= 80 && printable(t) {
 			m.Str = t
 		}
+		m.VT, m.VS = absText(t), absStr(t)
 		if b, err := base64.StdEncoding.DecodeString(t); err == nil {
 			m.B64, m.HB = true, hx(b)
 			m.N = len(b)
+			m.VB = absBytes(b)
 		}
 	case []any:
 		m.T, m.N = "array", len(t)
@@ -205,7 +213,7 @@ func parseJSONDoc(b []byte) (JMember, bool) {
 	dec.UseNumber()
 	var x any
 	if err := dec.Decode(&x); err != nil {
-		return JMember{Arr: []JMember{}, Obj: []JMember{}}, false
+		return JMember{Arr: []JMember{}, Obj: []JMember{}, VB: absent(), VT: absent(), VS: absent()}, false
 	}
 	if dec.More() {
 		return absJSON("", x), false
@@ -240,7 +248,7 @@ type jsonEv struct {
 func observeEncodeJSON(b int, src, how string, c psatoken.IClaims, reg []regEntry) jsonEv {
 	ev := jsonEv{B: b, Op: "EncodeJSON", Src: src, How: how, Pre: AbsClaims(c), Reg: reg}
 	ev.VRet = safeValidate(c)
-	ev.Doc = JMember{Arr: []JMember{}, Obj: []JMember{}}
+	ev.Doc = JMember{Arr: []JMember{}, Obj: []JMember{}, VB: absent(), VT: absent(), VS: absent()}
 	ev.Redec = decRes{Cls: []string{}}
 	doc, err := psatoken.EncodeClaimsToJSON(c)
 	if err == nil {
